@@ -36,6 +36,14 @@ ASSUMPTIONS = [
     'dateutil weekday, re on literal patterns, beancount.core.account*) is the trusted model of the Python library; '
     'the PyMini interpreter (Model/PyMini.v) is the trusted semantics of the Python fragment; possign/account_sortkey '
     'are translated without their first statement (account_types = context.tables[..].types is a parameter)',
+    'tie by translation of date_bin(relativedelta, date, date) (C18_source_date_bin*, Gen/SrcEnv2.v, bld-env2): `while True: B` '
+    'is translated as the fuelled `for $while in $fuel: B` over an extra last parameter followed by a marker primitive without '
+    'semantics (out of fuel = Stuck; theorems hold for every fuel and show |source - origin| + 1 passes suffice when adding the '
+    'stride makes progress); trusted primitives (Model/PrimsEnvDateBin.v): a relativedelta has years/months/days only (hours, '
+    'minutes, seconds read 0), date +/- relativedelta = Dates.rd_add (day clipped to the month length, ValueError outside '
+    'years 1..9999), a timedelta is its whole days, total_seconds() of a date difference is the integer days * 86400 (an '
+    'integral float), timedelta(seconds=n) = n // 86400 days for date arithmetic; for strides in days the tie assumes the '
+    'result is inside date.min..date.max (the model has no OverflowError there)',
 ]
 
 
@@ -45,6 +53,10 @@ def generate():
     from . import gen_src, src_env
     out = gen_src.generate('env')
     out.update(src_env.report())
+    # bld-env2: date_bin(relativedelta, date, date) with its while-True loops fuelled -> Gen/SrcEnv2.v
+    from . import src_env2
+    out.update(gen_src.generate('env2'))
+    out.update(src_env2.report())
     return out
 
 LO = DATE(1900, 1, 1).toordinal()
